@@ -93,7 +93,7 @@ pub fn replay_anim_line(tally: &mut Tally, lineno: usize, line: &Value, scales: 
                     a.advance(dt as f32 * tick);
                     // twin: zero-length advance, then the same time in two unequal parts, then another zero
                     twin.advance(0.0);
-                    let d1 = dt / 3;
+                    let d1 = if i % 2 == 0 { dt / 3 } else { dt - dt / 3 };       // (1,2) and (2,1) thirds alternate
                     twin.advance(d1 as f32 * tick);
                     twin.advance((dt - d1) as f32 * tick);
                     twin.advance(0.0);
